@@ -353,3 +353,19 @@ harness!(name=c01_f_chol_3, prop=C01, mode=R, kind=normal, tier=thorough, unwind
 harness!(name=c01_f_tri_3, prop=C01, mode=R, kind=normal, tier=thorough, unwind=20, { crate::c11::tri::<3>() });
 harness!(name=c01_f_lusolve_3a, prop=C01, mode=R, kind=normal, tier=thorough, unwind=20, { crate::c11::lusolve::<3>([2, 0, 1]) });
 harness!(name=c01_f_lusolve_3b, prop=C01, mode=R, kind=normal, tier=thorough, unwind=20, { crate::c11::lusolve::<3>([1, 2, 0]) });
+
+// @claim c01_diag_: end-to-end residual for diagonal positive-definite A (Cholesky route) with K right-hand sides, K different from 1 and from the order: exercises the multi-RHS layout conversion on the route the wiring obligations only reach in the thorough tier (R)
+fn diag_sys<const N: usize, const K: usize>() {
+    let mut a = vec![0.0; N * N];
+    let mut i = 0;
+    while i < N {
+        a[i * N + i] = inp::f64(i as u32);
+        vassume!(a[i * N + i] >= 0.1 && a[i * N + i] <= 100.0);
+        i += 1;
+    }
+    let b = rhs(100, N * K);
+    let x = solve_sys(&a, &b);
+    residual::<N, K>(&a, &x, &b, "solve_sys, diagonal SPD");
+}
+harness!(name=c01_diag_2x3, prop=C01, mode=R, kind=normal, tier=thorough, unwind=20, { diag_sys::<2, 3>() });
+harness!(name=c01_diag_3x2, prop=C01, mode=R, kind=normal, tier=thorough, unwind=20, { diag_sys::<3, 2>() });
